@@ -331,7 +331,7 @@ Proof.
     assert (Hins : forall c : cell, N.eqb (imp_align_block_step (blk_of c)) 3 = is_ins (snd c)) by (intros c; apply step_n_is_ins).
     assert (Hsc : forall c : cell, imp_align_block_score (blk_of c) = fst c) by reflexivity.
     unfold opn.
-    repeat (first
+    timeout 300 repeat (first
       [ rewrite (go_index_some blocks (i - bn - 1) (blk_of cD)) by (first [lia | exact Hdiag])
       | rewrite (go_index_some blocks (i - bn) (blk_of cU)) by (first [lia | exact Hup])
       | rewrite (go_index_some blocks (i - 1) (blk_of cL)) by (first [lia | exact Hleft])
@@ -372,8 +372,8 @@ Proof.
   match goal with |- context [go_len (repeat ?z ?k)] => replace (go_len (repeat z k)) with (Z.of_nat k) by (unfold go_len; rewrite repeat_length; reflexivity) end.
   rewrite Nat2Z.id.
   change (Imp_align_block 0 0%N) with zero_block.
-  change (go_iter _ (zseq 0 _) (repeat zero_block _))
-    with (go_iter (global_body (R := list N * Z) a b m (bn_of b)) (zseq 0 (S (length a) * S (length b))) (repeat zero_block (S (length a) * S (length b)))).
+  timeout 120 (change (go_iter _ (zseq 0 _) (repeat zero_block _))
+    with (go_iter (global_body (R := list N * Z) a b m (bn_of b)) (zseq 0 (S (length a) * S (length b))) (repeat zero_block (S (length a) * S (length b))))).
   rewrite (global_fill w m a b Hag). cbn [after]. fold spec.
   change (go_len b + 1) with (bn_of b).
   rewrite (imp_traceAlignmentSteps_ok fuel spec (bn_of b) steps s).
